@@ -51,6 +51,8 @@ class _LazyImplies(ast.NodeTransformer):
 
 
 class Ctx:
+    post_state = None
+
     def __init__(self, contracts_dir, repo=None):
         self.db = ContractDB().load_dir(contracts_dir)
         self.ns = {k: getattr(dsl, k) for k in dir(dsl) if not k.startswith('_')}
@@ -83,7 +85,8 @@ class Ctx:
         code = compile(ast.Expression(node), '<clause>', 'eval')
         g = dict(self.ns)
         g.update(env)
-        dsl._CLAUSE_STATE[0] = np.random.get_state()
+        if self.post_state is not None:
+            np.random.set_state(self.post_state)     # every clause sees the generator as the call left it
         return eval(code, g)
 
     def check_call(self, q, kwargs, contract=None, ghost=None):
@@ -103,11 +106,14 @@ class Ctx:
                 except Exception:
                     return {'status': 'pre-false'}
         raises = {cl.args[0].id: cl for cl in c.of('raises')}
+        self.post_state = None
+        dsl._CLAUSE_STATE[0] = np.random.get_state()        # global_state(): numpy's global generator at function entry
         try:
             result = fn(**kwargs)
             exc = None
         except Exception as e:        # noqa: BLE001
             result, exc = None, e
+        self.post_state = np.random.get_state()
         # frame: arguments unchanged (modifies() clauses exempt their targets)
         exempt = {ast.unparse(a) for cl in c.of('modifies') for a in cl.args}
         for k, v in kwargs.items():
@@ -118,6 +124,9 @@ class Ctx:
             if not _same(v, old[k]):
                 return {'status': 'violated', 'clause': 'frame:%s' % k, 'observed': 'argument %s was modified' % k}
         env_post = dict(old)
+        for k in exempt:
+            if k in kwargs:
+                env_post[k] = kwargs[k]
         if exc is not None:
             name = type(exc).__name__
             if name not in raises:
@@ -135,6 +144,17 @@ class Ctx:
             for k2, a in cl.kw.items():
                 env_post[k2] = self.ev(a, env_post)
         for cl in c.of('ensures'):
+            for a in cl.args:
+                try:
+                    ok = self.ev(a, env_post)
+                except Exception as e:    # noqa: BLE001
+                    return {'status': 'violated', 'clause': 'ensures ' + ast.unparse(a), 'observed': 'clause evaluation failed: %r on result %s' % (e, _short(result))}
+                if not ok:
+                    return {'status': 'violated', 'clause': 'ensures ' + ast.unparse(a), 'observed': 'result %s' % _short(result)}
+        for cl in c.of('witness'):
+            for k2, a in cl.kw.items():
+                env_post[k2] = self.ev(a, env_post)
+        for cl in c.of('ensures_exists'):
             for a in cl.args:
                 try:
                     ok = self.ev(a, env_post)
@@ -240,8 +260,29 @@ def gen_values(sort_src, rng, p_hint, budget):
         return out
     if s == 'SetOf(Int)':
         return [set(c) for r in range(0, 4) for c in itertools.combinations(range(4), r)]
+    if s == 'DictIv':
+        return _iv_dicts()
     if s.startswith('Obj('):
         cls = ast.literal_eval(ast.parse(sort_src, mode='eval').body.args[0])
+        if cls.endswith('LGANM'):
+            from sempler.lganm import LGANM
+            if 'W=' not in s:
+                return [object.__new__(LGANM)]
+            out = []
+            for p in (1, 2, 3):
+                for rep in range(4):
+                    W = np.zeros((p, p))
+                    for i in range(p):
+                        for j in range(i + 1, p):
+                            W[i, j] = rng.choice((0, 1, -1, 0.5, -2, 3))
+                    perm = list(range(p)); rng.shuffle(perm)
+                    W = W[perm, :][:, perm]
+                    mu = np.array([rng.choice((0, 1, -2, 3)) for _ in range(p)], dtype=float)
+                    var = np.array([rng.choice((1, 2, 3, 0.5)) for _ in range(p)], dtype=float)
+                    if rep == 3:     # integer-typed model arrays
+                        W, mu, var = np.round(W).astype(int), mu.astype(int), np.ceil(var).astype(int)
+                    out.append(LGANM(W, mu, var))
+            return out
         if cls.endswith('NormalDistribution'):
             from sempler.normal_distribution import NormalDistribution
             if 'mean=' not in s:
@@ -267,6 +308,15 @@ def gen_values(sort_src, rng, p_hint, budget):
     raise KeyError(sort_src)
 
 
+def _iv_dicts():
+    vals = [None, (0.5, 0.25), (2, 3), 1.5, 4, (-1.0, 0.0)]
+    out = []
+    for combo in itertools.product(range(len(vals)), repeat=3):
+        d = {k: vals[c] for k, c in enumerate(combo) if vals[c] is not None}
+        out.append(d)
+    return out
+
+
 def search(ctx, q, seed=0, budget=300, max_calls=20000, stop_on_first=True):
     """evaluate the contract of q concretely over a small-input domain. returns (stats, first witness or None)"""
     c = ctx.db.get(q)
@@ -281,7 +331,7 @@ def search(ctx, q, seed=0, budget=300, max_calls=20000, stop_on_first=True):
         for cn in cnames:
             vals = []
             for cv in cases[cn]:
-                vals += {'int': [0, 1, 2, 3, 42], 'none': [None], 'empty_dict': [{}], 'pair': [(a, b) for a in range(0, 4) for b in range(a, 5)], 'triple': [(1, 2, 3), (0, 0, 0)]}.get(cv, [cv]) if isinstance(cv, str) else [cv]
+                vals += {'int': [0, 1, 2, 3, 42], 'none': [None], 'empty_dict': [{}], 'dict': _iv_dicts(), 'rpair': [(0, 1), (0.5, 0.5), (-2.0, -1.0)], 'arr1': [np.array(v, dtype=float) for k in (1, 2, 3) for v in itertools.product((1, 2.5), repeat=k)] + [np.array([1, 2])], 'pair': [(a, b) for a in range(0, 4) for b in range(a, 5)], 'triple': [(1, 2, 3), (0, 0, 0)]}.get(cv, [cv]) if isinstance(cv, str) else [cv]
             doms.append(vals)
         doms += [gen_values(ast.unparse(a), rng, None, budget) for _, a in gnames]
     except KeyError as e:
